@@ -253,7 +253,18 @@ func TestC16Rapid(t *testing.T) {
 			cfg = append([]string{last + rapid.SampledFrom([]string{"", "/", "/."}).Draw(t, "respell")}, dirs...)
 			c.Pre = append(c.Pre, "last-directory-also-listed-first")
 		}
-		cache, _ := cdi.NewCache(cdi.WithSpecDirs(cfg...), cdi.WithAutoRefresh(false))
+		// the caller's own slice goes into WithSpecDirs; in half of the cases the caller re-uses it afterwards for something
+		// else: the cache keeps the directories it was configured with
+		passed := append([]string{}, cfg...)
+		cache, _ := cdi.NewCache(cdi.WithSpecDirs(passed...), cdi.WithAutoRefresh(false))
+		if rapid.Bool().Draw(t, "callerReusesItsSlice") {
+			decoy := filepath.Join(root, "decoy")
+			_ = os.MkdirAll(decoy, 0o755)
+			for i := range passed {
+				passed[i] = decoy
+			}
+			c.Pre = append(c.Pre, "caller-overwrote-the-slice-it-passed")
+		}
 		before := snapTree(root)
 		var werr error
 		if perr := catch(func() { werr = cache.WriteSpec(s, name) }); perr != nil {
